@@ -17,6 +17,7 @@ from ..refmodel import Model, mrec
 from ..universe import recs_from_json, recs_to_json
 
 PROP = "C11"
+HASHSEEDS = (1, 2)  # thorough tier: the sweep is repeated under these PYTHONHASHSEED values (sets are iterated inside the code under test)
 from curies import remap_curie_prefixes  # noqa: E402
 from curies import reconciliation as R  # noqa: E402
 
@@ -138,6 +139,7 @@ def check(base_idx, pairs, twice=False, ctx=None):
             if ctx is not None:
                 ctx.count("rejected")
                 ctx.count("rejected_" + name)
+                ctx.digest((base_idx, pairs, rnd, "rejected"))
             return fails
         if ctx is not None:
             ctx.count("accepted")
@@ -197,6 +199,7 @@ def check(base_idx, pairs, twice=False, ctx=None):
                 if alt is not None and dict(alt.bimap) != dict(res.bimap):
                     fails.append(("renaming-depends-on-key-being-synonym-or-canonical", f"{w}: canonical names {dict(res.bimap)}, but with the keys written canonically {dict(canon_pairs)} -> {dict(alt.bimap)}"))
         if ctx is not None:
+            ctx.digest((base_idx, pairs, rnd, sorted((r.prefix, r.uri_prefix, sorted(r.psyn), sorted(r.usyn)) for r in after.records)))
             ctx.state(hash(canon(res)))
             ctx.count("evaluations", 6)
             if after.record_set() != before.record_set():
